@@ -24,6 +24,11 @@ such a line — nothing could be extracted — with `Facts.node`, the literal la
 under `Facts.gen`: `c15_search_sound`) and the Spec fails, the contract is what moved: clauses `contract-rejects-node-payload`
 (an assertion / slice / conversion of the extracted parser aborts) or `contract-reads-other-value` (it accepts the payload but reads a
 field as something else than requested), with the request, the node's payload and the first failing parser step.
+
+`guardian-count-lossy`: an accepted guardian-set upgrade whose payload carries, at the parser's count slice, another number than
+the number of guardians requested ("every requested value represented without truncation or wrap-around"; the count is one byte, 256
+guardians read as 0).  Judged on the payload the implementation emitted with the extracted slice - it does not depend on the limit
+(`common.MaxGuardianCount`) the admin server or the model applies.
 -/
 namespace Whv.Driver.GovFam
 open Whv Whv.Driver Whv.Gov
@@ -281,7 +286,10 @@ def lossyClause (F : Facts) (gsi : Nat) (pl : Payload) (p : Bytes) : String :=
     match RalF.parseDestroy F p with
     | some (c', _) => if c' != c then "destroy-emitter-chain-lossy" else "destroy-sequences-lossy"
     | none => "destroy-sequences-lossy"
-  | .guardianSet _ =>
+  | .guardianSet gs =>
+    -- the guardian COUNT is a requested value too: what the parser reads at its count slice is not the number of guardians asked for
+    -- (a one-byte count wraps at 256) - whatever limit the admin server applied
+    if (Ral.slice p F.gsCount).isSome && readNat p F.gsCount != gs.length then "guardian-count-lossy" else
     match RalF.parseGuardianSet F p with
     | some (i, _) => if i != gsi + 1 then "guardian-set-index-lossy" else "guardian-set-keys-lossy"
     | none => "guardian-set-keys-lossy"
@@ -304,7 +312,13 @@ def specSent (F : Facts) (cfg : Cfg) (req : Req) : List Msg → List Vaa → Opt
         let (clause, why) := contractClause F req.currentSetIndex m.payload p
         some s!"{clause} the governance request kind={kindName m.payload} ({showPayload m.payload}, current_set_index={req.currentSetIndex}, target_chain_id={m.targetChain}) makes the node emit the payload {hexOrDash (p.take 110)}{if p.length > 110 then ".." else ""} ({p.length} bytes); the contract parser as extracted from the current source: {why}"
       else
-        some s!"{lossyClause F req.currentSetIndex m.payload p} accepted request ({showPayload m.payload}, current_set_index={req.currentSetIndex}) is not what the contract parser recovers from payload {hexOrDash (p.take 80)} ({p.length} bytes)"
+        let detail : String := match m.payload with
+          | .guardianSet gs =>
+            if (Ral.slice p F.gsCount).isSome && readNat p F.gsCount != gs.length then
+              s!": {gs.length} guardians were requested, the guardian count the contract reads at payload{showR F.gsCount} is {readNat p F.gsCount} (a {F.gsCount.2 - F.gsCount.1}-byte field, followed by {p.length - F.gsCount.2} key bytes)"
+            else ""
+          | _ => ""
+        some s!"{lossyClause F req.currentSetIndex m.payload p} accepted request ({showPayload m.payload}, current_set_index={req.currentSetIndex}) is not what the contract parser recovers from payload {hexOrDash (p.take 80)} ({p.length} bytes){detail}"
     else specSent F cfg req ms vs
 
 /-- `ps` = `label:fingerprint,...`; the label of the first instance whose complete result differs from the reference's. -/
